@@ -27,7 +27,7 @@ WHAT TO PRODUCE: two (2) independent changes to the source under {wt}/src, each 
   * is realistic: the kind of slip a maintainer could make in a refactoring or "optimisation" (an off-by-one, a dropped guard, a wrong default, a cache keyed too coarsely, an ordering change, a condition inverted for one branch, two sites that each look fine alone ...), NOT a deliberately hidden backdoor and NOT something keyed to a magic string,
   * needs something SPECIFIC to manifest - a particular kind of input, a multi-step sequence, an unusual-but-legal combination of options, a particular file layout, a fault at a particular point - i.e. ordinary single-file default use would NOT expose it at once. Prefer changes in different files/mechanisms for the two.
 For each change i in {{1,2}} write into {wt}/_seeded/change<i>/ :
-  patch.diff   - `git diff` of ONLY that change against the worktree's HEAD (so it applies with `git apply` at the repo root; make each patch independent: produce change 1, save the diff, `git checkout -- src`, then do change 2)
+  patch.diff   - `git diff` of ONLY that change against the worktree's HEAD (so it applies with `git apply` at the repo root; make each patch independent: produce change 1, save the diff, `git checkout -- src`, then do change 2; NEVER use `git stash` - stashes are shared between worktrees and other people work in sibling worktrees)
   demo.py      - a small self-contained program (uses a temp dir; no network) run as `PYTHONPATH=<repo>/src ... /venv/bin/python demo.py` that exits 0 and prints PASS when the property holds (i.e. WITHOUT the change) and exits 1 and prints FAIL with an explanation WITH the change. It must observe the property through public behaviour (CLI run / public API), not by inspecting the source.
   meta.json    - {{"property": "{p['id']}", "title": "...one line...", "what_breaks": "...", "needs_to_manifest": "...the specific input/sequence/layout needed...", "files_changed": [...], "tests_run": "...command and result summary..."}}
 Verify yourself: demo passes on the clean worktree, fails with the patch applied, and the test suite result is unchanged with the patch applied. Leave the worktree's src clean (git checkout -- src) at the end; only the _seeded/ directory should remain as untracked output.
